@@ -21,6 +21,12 @@ package tstate
 //@ spec func RI(ts *TStateView) bool = (forall q string :: has(ts.writes, q) == has(ts.pendingChangedKeys, q)) && (forall j int :: 0 <= j && j < len(ts.ops) ==> !isnil(ts.ops[j]) && ts.ops[j].t <= 2)
 // the pending entry of key q is what operation record o says it was before the operation
 //@ spec func pendIs(ts *TStateView, q bytes, o *op) bool = has(ts.pendingChangedKeys, q) == !isnil(o.pastWrites) && (has(ts.pendingChangedKeys, q) ==> ts.pendingChangedKeys[q].hasValue == (o.t != createOp) && (ts.pendingChangedKeys[q].hasValue ==> str(ts.pendingChangedKeys[q].value) == str(o.pastV)))
+// record j is the earliest operation record at or after checkpoint c on key q / no record on q since c
+//@ spec func earliest(ts *TStateView, c int, j int, q bytes) bool = c <= j && j < len(ts.ops) && str(ts.ops[j].k) == q && (forall j2 int :: c <= j2 && j2 < j ==> str(ts.ops[j2].k) != q)
+//@ spec func untouched(ts *TStateView, c int, q bytes) bool = forall j int :: c <= j && j < len(ts.ops) ==> str(ts.ops[j].k) != q
+// hist(now, then, c): `then` is the view when its log had c entries: every key touched since is
+// recorded with its pending entry of `then`, every other key still has that entry.
+//@ spec func hist(ts *TStateView, s0 *TStateView, c int) bool = c <= len(ts.ops) && (forall q string, j int :: earliest(ts, c, j, q) ==> pendIs(s0, q, ts.ops[j])) && (forall q string :: untouched(ts, c, q) ==> has(ts.pendingChangedKeys, q) == has(s0.pendingChangedKeys, q) && ts.pendingChangedKeys[q] == s0.pendingChangedKeys[q])
 // nothing of the view's own state changed
 //@ spec func sameView(ts *TStateView, o *TStateView) bool = ts.pendingChangedKeys == o.pendingChangedKeys && ts.writes == o.writes && ts.allocates == o.allocates && len(ts.ops) == len(o.ops)
 
